@@ -209,6 +209,102 @@ class _Raises(Exception):
     pass
 
 
+def _set_level_registration(cx, f, loop, ins, container, name_var, new_var):
+    """The registration written on sets: one pass over the registry,
+           for k, e in registry.items():  if k in P or <P meets e.<container>>:  e.register(name, new)
+    P being the set of declared parent names.  Receivers = the parents themselves + every parser that has one of them as
+    dependent - the same set the nested loops produce; each parser is visited once."""
+    from sa.guards import reaching_def
+    items = norm(loop.iter).endswith(".items()") or norm(loop.iter).endswith(".items())")
+    if items:
+        cx.need(isinstance(loop.target, ast.Tuple) and len(loop.target.elts) == 2 and all(isinstance(x, ast.Name) for x in loop.target.elts), "R19a", loop, "registry loop target")
+        kvar, evar = loop.target.elts[0].id, loop.target.elts[1].id
+    else:
+        cx.need(isinstance(loop.target, ast.Name), "R19a", loop, "registry loop target")
+        kvar, evar = None, loop.target.id
+    calls = [c for c in ast.walk(loop) if isinstance(c, ast.Call) and call_name(c) == ins.name]
+    cx.need(len(calls) == 1 and isinstance(calls[0].func, ast.Attribute) and is_name(calls[0].func.value, evar), "R19a", loop, "one registration call on the visited parser")
+    c = calls[0]
+    ok_args = [norm(a) for a in c.args] == [name_var, new_var]
+    cx.ob("R19a", c, ok_args, f"registers ({name_var}, {new_var})" if ok_args else f"registration is {norm(c.func.value)}.register_dependent({', '.join(norm(a) for a in c.args)})", stmt=norm(c) + " [arguments]")
+    # the condition: the `if` chain between the loop and the call
+    tests = []
+    cur = c
+    while cur is not loop:
+        p_ = parent(cur)
+        if isinstance(p_, ast.If):
+            cx.need(cur in p_.body, "R19a", p_, "registration in an else branch: form not analysed")
+            tests.append(p_.test)
+        cur = p_
+    exits = [n for n in ast.walk(loop) if isinstance(n, (ast.Break, ast.Continue, ast.Return))]
+    cx.need(not exits and len(tests) >= 1, "R19a", loop, "registry pass with early exits / without a condition: form not analysed")
+    disj, extra = [], []
+    for t in tests:
+        if isinstance(t, ast.BoolOp) and isinstance(t.op, ast.Or):
+            disj.append(list(t.values))
+        else:
+            extra.append(t)
+    cx.need(len(disj) == 1, "R19a", loop, "the receivers' condition is not one disjunction `parent itself or ancestor of a parent`")
+    fresh = ("in", name_var, f"{evar}.{container}", False)
+    from sa.guards import canon_test
+    for t in extra:
+        cx.need(canon_test(t) == {fresh}, "R19a", t, f"additional condition on the receivers `{norm(t)[:60]}` not recognised")
+
+    def parents_set(e):
+        """'set' when e is the set of declared parent names, 'text' when it is the raw declaration text, None otherwise"""
+        if not isinstance(e, ast.Name):
+            return None
+        r = reaching_def(e.id, c, calls=True, containers=True)
+        v = r[0] if r is not None else None
+        if v is None:
+            ds_ = [v_ for _s, v_ in assignments(f, e.id)]
+            v = ds_[0] if len(ds_) == 1 else None          # bound once in the function
+        if isinstance(v, (ast.SetComp, ast.ListComp)) and any(isinstance(g.iter, ast.Call) and call_name(g.iter) == "split" for g in v.generators):
+            return "set"
+        if isinstance(v, ast.Call) and call_name(v) in ("set", "frozenset", "sorted", "list") and v.args and isinstance(v.args[0], (ast.GeneratorExp, ast.ListComp, ast.SetComp)) \
+                and any(isinstance(g.iter, ast.Call) and call_name(g.iter) == "split" for g in v.args[0].generators):
+            return "set"
+        # bound by unpacking / as an element of str.partition / str.split: a piece of text
+        for st_, v_ in assignments(f, e.id):
+            src = v_ if v_ is not None else getattr(st_, "value", None)
+            if isinstance(src, ast.Call) and call_name(src) in ("partition", "rpartition", "split", "rsplit"):
+                return "text"
+            if isinstance(src, ast.Subscript) and isinstance(src.value, ast.Call) and call_name(src.value) in ("partition", "rpartition", "split", "rsplit"):
+                return "text"
+        return None
+    kinds = {}
+    for d in disj[0]:
+        k = None
+        if isinstance(d, ast.Compare) and len(d.ops) == 1 and isinstance(d.ops[0], ast.In) and kvar is not None and is_name(d.left, kvar):
+            ps = parents_set(d.comparators[0])
+            if ps == "set":
+                k = "direct"
+            elif ps == "text":
+                cx.ob("R19a", d, False, f"`{norm(d)}` tests the registered name against the raw declaration text `{norm(d.comparators[0])}`: a substring test - a parser whose name is "
+                      "part of a parent's name receives the new command although it is not its ancestor (options leak to commands that did not ask for them)", stmt="direct registration")
+                k = "direct-text"
+        elif isinstance(d, ast.UnaryOp) and isinstance(d.op, ast.Not) and isinstance(d.operand, ast.Call) and call_name(d.operand) == "isdisjoint" and len(d.operand.args) == 1:
+            a_, b_ = d.operand.func.value, d.operand.args[0]
+            for x_, y_ in ((a_, b_), (b_, a_)):
+                if parents_set(x_) == "set" and norm(y_) == f"{evar}.{container}":
+                    k = "transitive"
+        elif isinstance(d, ast.BinOp) and isinstance(d.op, ast.BitAnd):
+            for x_, y_ in ((d.left, d.right), (d.right, d.left)):
+                if parents_set(x_) == "set" and norm(y_) in (f"{evar}.{container}", f"{evar}.{container}.keys()", f"set({evar}.{container})"):
+                    k = "transitive"
+        elif isinstance(d, ast.Call) and call_name(d) == "any" and len(d.args) == 1 and isinstance(d.args[0], ast.GeneratorExp) and len(d.args[0].generators) == 1:
+            g = d.args[0].generators[0]
+            if parents_set(g.iter) == "set" and isinstance(g.target, ast.Name) and not g.ifs and canon_test(d.args[0].elt) == {("in", g.target.id, f"{evar}.{container}", True)}:
+                k = "transitive"
+        if k is None:
+            raise AnalysisError("R19a", f"{REL}::_init_multicmd_parser", f"receiver condition `{norm(d)[:70]}` not recognised")
+        kinds[k] = d
+    if "direct-text" not in kinds:
+        cx.ob("R19a", loop, "direct" in kinds, "the new parser is registered in each declared parent" if "direct" in kinds else "the new parser is not registered in its declared parents", stmt="direct registration")
+    cx.ob("R19a", loop, "transitive" in kinds, "the new parser is also registered in all ancestors (parsers that already have a parent as dependent)" if "transitive" in kinds else
+          "no registration in the ancestors of a parent: options of a grand-parent are not inherited", stmt="transitive registration")
+
+
 def _default_command_rule(cx, repo, parse_args):
     """R19e: what ArgParser.parse_args hands to argparse, decided on the finite partition of its inputs (see _Model)."""
     from sa.inline import inlined
@@ -314,6 +410,14 @@ def run(cx):
         if len(inner) == 1 and len([x for x in sites if enclosing_func(x) is f]) == 1:
             l = inner[0]
             distinct = isinstance(c.func, ast.Attribute) and norm(c.func.value) == norm(l.target) and _set_typed(l.iter, f) and key not in {n for n in names_in(l.target)}
+            # ... or the values of the registry itself, each visited once
+            if not distinct and isinstance(c.func, ast.Attribute) and key not in {n for n in names_in(l.target)}:
+                it_ = norm(l.iter)
+                if it_ in ("self.command_parsers.values()", "list(self.command_parsers.values())") and norm(c.func.value) == norm(l.target):
+                    distinct = True
+                elif it_ in ("self.command_parsers.items()", "list(self.command_parsers.items())") and isinstance(l.target, ast.Tuple) and len(l.target.elts) == 2 \
+                        and norm(c.func.value) == norm(l.target.elts[1]):
+                    distinct = True
         ok = idempotent or guarded or not inner or distinct
         why = ("insert primitive is idempotent" if idempotent else f"guarded by `{key} not in {recv}.{container}`" if guarded else
                "receivers are the distinct elements of a set and this is the only insert site" if distinct else "not inside a loop that can repeat the key") if ok else \
@@ -334,6 +438,9 @@ def run(cx):
     ploop = ploops[0]
     pvar = norm(ploop.target)
     parents_var = norm(ploop.iter)
+    set_level = norm(ploop.iter) in ("self.command_parsers.items()", "self.command_parsers.values()", "list(self.command_parsers.items())", "list(self.command_parsers.values())")
+    if set_level:
+        cx.guard(_set_level_registration, cx, init_multi, ploop, ins, container, name_var, new_var)
     # Which parsers receive the new one?  Every call site's receiver is resolved to a union of terms
     #     ("parent",)                      the parser of the declared parent  self.command_parsers[<pvar>]
     #     ("all", frozenset(conditions))   every registered parser e for which the conditions hold  (e written <e>)
@@ -434,7 +541,7 @@ def run(cx):
                 raise _Und(f"receiver {x.id}")
             return _single(r[0], r[1], depth + 1)
         raise _Und(f"receiver `{norm(x)[:50]}`")
-    reg_calls = [c for c in ast.walk(ploop) if isinstance(c, ast.Call) and call_name(c) == ins.name]
+    reg_calls = [c for c in ast.walk(ploop) if isinstance(c, ast.Call) and call_name(c) == ins.name] if not set_level else []
     terms = []
     skipped = []
     try:
@@ -452,9 +559,11 @@ def run(cx):
     fresh = ("in", name_var, f"<e>.{container}", False)
     all_terms = [t for _, ts in terms for t in ts]
     has_parent = ("parent",) in all_terms
-    cx.ob("R19a", ploop, has_parent, "the new parser is registered in each declared parent" if has_parent else "the new parser is not registered in its declared parents", stmt="direct registration")
+    if not set_level:
+      cx.ob("R19a", ploop, has_parent, "the new parser is registered in each declared parent" if has_parent else "the new parser is not registered in its declared parents", stmt="direct registration")
     anc = [t for t in all_terms if t[0] == "all" and dep_cond in t[1]]
-    cx.ob("R19a", ploop, bool(anc), "the new parser is also registered in all ancestors (parsers that already have the parent as dependent)" if anc else
+    if not set_level:
+      cx.ob("R19a", ploop, bool(anc), "the new parser is also registered in all ancestors (parsers that already have the parent as dependent)" if anc else
           "no registration in the ancestors of a parent: options of a grand-parent are not inherited", stmt="transitive registration")
     for c, ts in terms:
         ok_args = [norm(a) for a in c.args] == [name_var, new_var]
@@ -529,7 +638,15 @@ def run(cx):
 
     # ---------------------------------------------------------------- R19d
     lookups = [n for n in ast.walk(cmd_loop) if isinstance(n, ast.Subscript) and isinstance(n.ctx, ast.Load) and is_self_attr(n.value, "command_parsers")]
-    cx.at_least("R19d", "parent parser lookups", len(lookups), 1)
+    if not lookups:
+        # no look-up by name at all (the registration works on the registry's own entries): what is left of the rule is that
+        # every declared parent is asserted to be registered, before the registration pass
+        from sa.guards import canon_test as _ct
+        al_any = [n for n in cmd_loop.body if isinstance(n, ast.For) and isinstance(n.target, ast.Name)
+                  and any(isinstance(a, ast.Assert) and _ct(a.test) == {("in", n.target.id, "self.command_parsers", True)} for a in n.body)
+                  and cmd_loop.body.index(n) < cmd_loop.body.index(next(s_ for s_ in cmd_loop.body if ploop in list(ast.walk(s_))))]
+        cx.ob("R19d", al_any[0] if al_any else cmd_loop, bool(al_any), "every declared parent is asserted to be a registered command before the registration pass" if al_any else
+              "an unknown parent name is not diagnosed (it is silently ignored by the registration pass)", stmt="unknown parent")
     aloops = [n for n in cmd_loop.body if isinstance(n, ast.For) and norm(n.iter) == parents_var and any(isinstance(a, ast.Assert) for a in n.body)]
     asserted = False
     for al in aloops:
@@ -549,7 +666,19 @@ def run(cx):
     creates = [c for c in ast.walk(cmd_loop) if isinstance(c, ast.Call) and (call_name(c) in ("AkArgumentParser", "add_parser"))]
     cx.at_least("R19c", "parser creation sites", len(creates), 2)
     for c in creates:
-        kw = {k.arg: k.value for k in c.keywords}
+        kw = {k.arg: k.value for k in c.keywords if k.arg is not None}
+        # **opts with opts a dict literal bound once in the function (shared keyword arguments of the two creation sites)
+        for k in c.keywords:
+            if k.arg is None and isinstance(k.value, ast.Name):
+                ds_ = [v for _s, v in assignments(init_multi, k.value.id)]
+                stored_ = [n_ for n_ in ast.walk(init_multi) if isinstance(n_, ast.Subscript) and isinstance(n_.ctx, (ast.Store, ast.Del)) and is_name(n_.value, k.value.id)]
+                mutated_ = [n_ for n_ in ast.walk(init_multi) if isinstance(n_, ast.Call) and isinstance(n_.func, ast.Attribute) and is_name(n_.func.value, k.value.id)
+                            and n_.func.attr in ("pop", "update", "clear", "setdefault", "popitem")]
+                if len(ds_) == 1 and isinstance(ds_[0], ast.Dict) and not stored_ and not mutated_ and all(isinstance(x, ast.Constant) for x in ds_[0].keys):
+                    for kk, vv in zip(ds_[0].keys, ds_[0].values):
+                        kw.setdefault(kk.value, vv)
+                else:
+                    raise AnalysisError("R19c", f"{REL}::_init_multicmd_parser", f"keyword arguments `**{k.value.id}` of a parser creation site not resolved")
         p = kw.get("parents")
         ok = isinstance(p, ast.List) and any(norm(e) == "self.common_options" for e in p.elts)
         cx.ob("R19c", c, ok, "created with parents=[self.common_options]" if ok else "command parser is created without the common options parent")
